@@ -43,6 +43,7 @@ Record abs := mkAbs {
   acur : option N;
   adepth : nat;
   arefs : arr (option N);
+  agvars : arr N;
   anextid : N;
   anextscript : N;
   astack : list frame;
@@ -50,41 +51,43 @@ Record abs := mkAbs {
   aoof : bool }.
 
 Definition set_ath (v : list (N * athread)) (a : abs) : abs :=
-  mkAbs v (acl a) (ascripts a) (aelems a) (amtime a) (adirty a) (ascaled a) (alastclk a) (astartclk a) (aclock a) (acur a) (adepth a) (arefs a) (anextid a) (anextscript a) (astack a) (aout a) (aoof a).
+  mkAbs v (acl a) (ascripts a) (aelems a) (amtime a) (adirty a) (ascaled a) (alastclk a) (astartclk a) (aclock a) (acur a) (adepth a) (arefs a) (agvars a) (anextid a) (anextscript a) (astack a) (aout a) (aoof a).
 Definition set_acl (v : list (N * N)) (a : abs) : abs :=
-  mkAbs (ath a) v (ascripts a) (aelems a) (amtime a) (adirty a) (ascaled a) (alastclk a) (astartclk a) (aclock a) (acur a) (adepth a) (arefs a) (anextid a) (anextscript a) (astack a) (aout a) (aoof a).
+  mkAbs (ath a) v (ascripts a) (aelems a) (amtime a) (adirty a) (ascaled a) (alastclk a) (astartclk a) (aclock a) (acur a) (adepth a) (arefs a) (agvars a) (anextid a) (anextscript a) (astack a) (aout a) (aoof a).
 Definition set_ascripts (v : list N) (a : abs) : abs :=
-  mkAbs (ath a) (acl a) v (aelems a) (amtime a) (adirty a) (ascaled a) (alastclk a) (astartclk a) (aclock a) (acur a) (adepth a) (arefs a) (anextid a) (anextscript a) (astack a) (aout a) (aoof a).
+  mkAbs (ath a) (acl a) v (aelems a) (amtime a) (adirty a) (ascaled a) (alastclk a) (astartclk a) (aclock a) (acur a) (adepth a) (arefs a) (agvars a) (anextid a) (anextscript a) (astack a) (aout a) (aoof a).
 Definition set_aelems (v : list (N * N)) (a : abs) : abs :=
-  mkAbs (ath a) (acl a) (ascripts a) v (amtime a) (adirty a) (ascaled a) (alastclk a) (astartclk a) (aclock a) (acur a) (adepth a) (arefs a) (anextid a) (anextscript a) (astack a) (aout a) (aoof a).
+  mkAbs (ath a) (acl a) (ascripts a) v (amtime a) (adirty a) (ascaled a) (alastclk a) (astartclk a) (aclock a) (acur a) (adepth a) (arefs a) (agvars a) (anextid a) (anextscript a) (astack a) (aout a) (aoof a).
 Definition set_amtime (v : N) (a : abs) : abs :=
-  mkAbs (ath a) (acl a) (ascripts a) (aelems a) v (adirty a) (ascaled a) (alastclk a) (astartclk a) (aclock a) (acur a) (adepth a) (arefs a) (anextid a) (anextscript a) (astack a) (aout a) (aoof a).
+  mkAbs (ath a) (acl a) (ascripts a) (aelems a) v (adirty a) (ascaled a) (alastclk a) (astartclk a) (aclock a) (acur a) (adepth a) (arefs a) (agvars a) (anextid a) (anextscript a) (astack a) (aout a) (aoof a).
 Definition set_adirty (v : bool) (a : abs) : abs :=
-  mkAbs (ath a) (acl a) (ascripts a) (aelems a) (amtime a) v (ascaled a) (alastclk a) (astartclk a) (aclock a) (acur a) (adepth a) (arefs a) (anextid a) (anextscript a) (astack a) (aout a) (aoof a).
+  mkAbs (ath a) (acl a) (ascripts a) (aelems a) (amtime a) v (ascaled a) (alastclk a) (astartclk a) (aclock a) (acur a) (adepth a) (arefs a) (agvars a) (anextid a) (anextscript a) (astack a) (aout a) (aoof a).
 Definition set_ascaled (v : N) (a : abs) : abs :=
-  mkAbs (ath a) (acl a) (ascripts a) (aelems a) (amtime a) (adirty a) v (alastclk a) (astartclk a) (aclock a) (acur a) (adepth a) (arefs a) (anextid a) (anextscript a) (astack a) (aout a) (aoof a).
+  mkAbs (ath a) (acl a) (ascripts a) (aelems a) (amtime a) (adirty a) v (alastclk a) (astartclk a) (aclock a) (acur a) (adepth a) (arefs a) (agvars a) (anextid a) (anextscript a) (astack a) (aout a) (aoof a).
 Definition set_alastclk (v : N) (a : abs) : abs :=
-  mkAbs (ath a) (acl a) (ascripts a) (aelems a) (amtime a) (adirty a) (ascaled a) v (astartclk a) (aclock a) (acur a) (adepth a) (arefs a) (anextid a) (anextscript a) (astack a) (aout a) (aoof a).
+  mkAbs (ath a) (acl a) (ascripts a) (aelems a) (amtime a) (adirty a) (ascaled a) v (astartclk a) (aclock a) (acur a) (adepth a) (arefs a) (agvars a) (anextid a) (anextscript a) (astack a) (aout a) (aoof a).
 Definition set_astartclk (v : N) (a : abs) : abs :=
-  mkAbs (ath a) (acl a) (ascripts a) (aelems a) (amtime a) (adirty a) (ascaled a) (alastclk a) v (aclock a) (acur a) (adepth a) (arefs a) (anextid a) (anextscript a) (astack a) (aout a) (aoof a).
+  mkAbs (ath a) (acl a) (ascripts a) (aelems a) (amtime a) (adirty a) (ascaled a) (alastclk a) v (aclock a) (acur a) (adepth a) (arefs a) (agvars a) (anextid a) (anextscript a) (astack a) (aout a) (aoof a).
 Definition set_aclock (v : N) (a : abs) : abs :=
-  mkAbs (ath a) (acl a) (ascripts a) (aelems a) (amtime a) (adirty a) (ascaled a) (alastclk a) (astartclk a) v (acur a) (adepth a) (arefs a) (anextid a) (anextscript a) (astack a) (aout a) (aoof a).
+  mkAbs (ath a) (acl a) (ascripts a) (aelems a) (amtime a) (adirty a) (ascaled a) (alastclk a) (astartclk a) v (acur a) (adepth a) (arefs a) (agvars a) (anextid a) (anextscript a) (astack a) (aout a) (aoof a).
 Definition set_acur (v : option N) (a : abs) : abs :=
-  mkAbs (ath a) (acl a) (ascripts a) (aelems a) (amtime a) (adirty a) (ascaled a) (alastclk a) (astartclk a) (aclock a) v (adepth a) (arefs a) (anextid a) (anextscript a) (astack a) (aout a) (aoof a).
+  mkAbs (ath a) (acl a) (ascripts a) (aelems a) (amtime a) (adirty a) (ascaled a) (alastclk a) (astartclk a) (aclock a) v (adepth a) (arefs a) (agvars a) (anextid a) (anextscript a) (astack a) (aout a) (aoof a).
 Definition set_adepth (v : nat) (a : abs) : abs :=
-  mkAbs (ath a) (acl a) (ascripts a) (aelems a) (amtime a) (adirty a) (ascaled a) (alastclk a) (astartclk a) (aclock a) (acur a) v (arefs a) (anextid a) (anextscript a) (astack a) (aout a) (aoof a).
+  mkAbs (ath a) (acl a) (ascripts a) (aelems a) (amtime a) (adirty a) (ascaled a) (alastclk a) (astartclk a) (aclock a) (acur a) v (arefs a) (agvars a) (anextid a) (anextscript a) (astack a) (aout a) (aoof a).
 Definition set_arefs (v : arr (option N)) (a : abs) : abs :=
-  mkAbs (ath a) (acl a) (ascripts a) (aelems a) (amtime a) (adirty a) (ascaled a) (alastclk a) (astartclk a) (aclock a) (acur a) (adepth a) v (anextid a) (anextscript a) (astack a) (aout a) (aoof a).
+  mkAbs (ath a) (acl a) (ascripts a) (aelems a) (amtime a) (adirty a) (ascaled a) (alastclk a) (astartclk a) (aclock a) (acur a) (adepth a) v (agvars a) (anextid a) (anextscript a) (astack a) (aout a) (aoof a).
+Definition set_agvars (v : arr N) (a : abs) : abs :=
+  mkAbs (ath a) (acl a) (ascripts a) (aelems a) (amtime a) (adirty a) (ascaled a) (alastclk a) (astartclk a) (aclock a) (acur a) (adepth a) (arefs a) v (anextid a) (anextscript a) (astack a) (aout a) (aoof a).
 Definition set_anextid (v : N) (a : abs) : abs :=
-  mkAbs (ath a) (acl a) (ascripts a) (aelems a) (amtime a) (adirty a) (ascaled a) (alastclk a) (astartclk a) (aclock a) (acur a) (adepth a) (arefs a) v (anextscript a) (astack a) (aout a) (aoof a).
+  mkAbs (ath a) (acl a) (ascripts a) (aelems a) (amtime a) (adirty a) (ascaled a) (alastclk a) (astartclk a) (aclock a) (acur a) (adepth a) (arefs a) (agvars a) v (anextscript a) (astack a) (aout a) (aoof a).
 Definition set_anextscript (v : N) (a : abs) : abs :=
-  mkAbs (ath a) (acl a) (ascripts a) (aelems a) (amtime a) (adirty a) (ascaled a) (alastclk a) (astartclk a) (aclock a) (acur a) (adepth a) (arefs a) (anextid a) v (astack a) (aout a) (aoof a).
+  mkAbs (ath a) (acl a) (ascripts a) (aelems a) (amtime a) (adirty a) (ascaled a) (alastclk a) (astartclk a) (aclock a) (acur a) (adepth a) (arefs a) (agvars a) (anextid a) v (astack a) (aout a) (aoof a).
 Definition set_astack (v : list frame) (a : abs) : abs :=
-  mkAbs (ath a) (acl a) (ascripts a) (aelems a) (amtime a) (adirty a) (ascaled a) (alastclk a) (astartclk a) (aclock a) (acur a) (adepth a) (arefs a) (anextid a) (anextscript a) v (aout a) (aoof a).
+  mkAbs (ath a) (acl a) (ascripts a) (aelems a) (amtime a) (adirty a) (ascaled a) (alastclk a) (astartclk a) (aclock a) (acur a) (adepth a) (arefs a) (agvars a) (anextid a) (anextscript a) v (aout a) (aoof a).
 Definition set_aout (v : list N) (a : abs) : abs :=
-  mkAbs (ath a) (acl a) (ascripts a) (aelems a) (amtime a) (adirty a) (ascaled a) (alastclk a) (astartclk a) (aclock a) (acur a) (adepth a) (arefs a) (anextid a) (anextscript a) (astack a) v (aoof a).
+  mkAbs (ath a) (acl a) (ascripts a) (aelems a) (amtime a) (adirty a) (ascaled a) (alastclk a) (astartclk a) (aclock a) (acur a) (adepth a) (arefs a) (agvars a) (anextid a) (anextscript a) (astack a) v (aoof a).
 Definition set_aoof (v : bool) (a : abs) : abs :=
-  mkAbs (ath a) (acl a) (ascripts a) (aelems a) (amtime a) (adirty a) (ascaled a) (alastclk a) (astartclk a) (aclock a) (acur a) (adepth a) (arefs a) (anextid a) (anextscript a) (astack a) (aout a) v.
+  mkAbs (ath a) (acl a) (ascripts a) (aelems a) (amtime a) (adirty a) (ascaled a) (alastclk a) (astartclk a) (aclock a) (acur a) (adepth a) (arefs a) (agvars a) (anextid a) (anextscript a) (astack a) (aout a) v.
 
 Fixpoint afind (t : N) (l : list (N * athread)) : option athread :=
   match l with
@@ -257,8 +260,9 @@ Fixpoint a_free_all (f : nat) (a : abs) : abs :=
       end
   end.
 
+(* after a Reset the engine is as new: no instance, no program, no global variable *)
 Definition a_reset (a : abs) : abs :=
-  set_ascripts [] (a_free_all (S (length (acl a))) a).
+  set_ascripts [] (set_arefs (aempty None) (set_agvars (aempty 0) (a_free_all (S (length (acl a))) a))).
 
 Definition a_recompile (k : N) (a : abs) : abs :=
   if memb k (ascripts a) then
@@ -338,6 +342,14 @@ Definition a_exec_instr (t : N) (i : instr) (r : list instr) (a0 : abs) : abs :=
   | IXWait k d => match a_deref k a with Some b => a_wait_on b d a | None => a end
   | IXWaitFrame k => match a_deref k a with Some b => a_wait_on b (aclock a - astartclk a) a | None => a end
   | IXPause k => match a_deref k a with Some b => a_pause_on b a | None => a end
+  | IGSet v x => set_agvars (set (agvars a) v x) a
+  | IGPrint v => set_aout ((9100 + 10 * v + get (agvars a) v) :: aout a) a
+  | IWaitMissing =>
+      (* a start that fails leaves nothing behind *)
+      match a_current_script a with
+      | Some k => let '(c, a1) := a_new_class k a in a_destroy_class c a1
+      | None => a
+      end
   end.
 
 Definition a_step (a : abs) : abs :=
@@ -393,7 +405,7 @@ Definition a_weight (a : abs) : nat :=
    + fold_right (fun x n => S (psize (a_cont (snd x))) + n) O (ath a))%nat.
 Definition a_sfuel (a : abs) : nat := (16 + 8 * a_weight a)%nat.
 
-Definition abs_init (c : N) : abs := mkAbs [] [] [] [] 0 false 0 c c c None O (aempty None) 0 0 [] [] false.
+Definition abs_init (c : N) : abs := mkAbs [] [] [] [] 0 false 0 c c c None O (aempty None) (aempty 0) 0 0 [] [] false.
 
 Definition a_host_step (a0 : abs) (o : op) : abs :=
   if aoof a0 then a0 else
@@ -414,6 +426,8 @@ Definition a_host_step (a0 : abs) (o : op) : abs :=
       a_run_stack (a_sfuel a2) a2
   | OReset => a_reset a
   | ORecompile k => a_recompile k a
+  | OStartMissing k =>
+      if memb k (ascripts a) then let '(c, a1) := a_new_class k a in a_destroy_class c a1 else a
   | ODestroy => a_reset a
   end.
 
